@@ -207,9 +207,33 @@ def run(ctx):
         for n, cond, kind in sites:
             groups.setdefault(cond, []).append((n, kind))
         ctx.ok("R1", f"{m.rel}:{f.lineno} {q}", f"{q}: dependence analysis over {len(dep.env)} names, {len(sites)} chart site(s) in {len(groups)} chart(s)")
+        def _canon(cond_text_):
+            """spelling-independent name of a chart: the compared quantity with single-definition locals written out, the comparison, and `tol` for the threshold"""
+            try:
+                ce = ast.parse(cond_text_, mode="eval").body
+            except SyntaxError:
+                return cond_text_
+            if not (isinstance(ce, ast.Compare) and len(ce.ops) == 1):
+                return cond_text_
+            defs_ = {}
+            for st_ in ast.walk(f):
+                if isinstance(st_, ast.Assign) and len(st_.targets) == 1 and isinstance(st_.targets[0], ast.Name):
+                    defs_.setdefault(st_.targets[0].id, []).append(st_.value)
+            import copy as _cp
+
+            def _exp(e_, depth=0):
+                class _S(ast.NodeTransformer):
+                    def visit_Name(s_, n_):
+                        if isinstance(n_.ctx, ast.Load) and len(defs_.get(n_.id, [])) == 1 and depth < 4 and n_.id != param:
+                            return _exp(_cp.deepcopy(defs_[n_.id][0]), depth + 1)
+                        return n_
+                return _S().visit(_cp.deepcopy(e_))
+            left_ = norm(_exp(ce.left)).replace("th.", "torch.")
+            op_ = {ast.Lt: "<", ast.LtE: "<=", ast.Gt: ">", ast.GtE: ">="}.get(type(ce.ops[0]), "?")
+            return f"{left_} {op_} tol"
         for cond, lst in sorted(groups.items()):
             first = lst[0][0]
-            ctx.fail("R1", m, first, q, f"chart condition `{cond}`",
+            ctx.fail("R1", m, first, q, f"chart condition `{cond}` [{_canon(cond)}]",
                      f"{q}: under `{cond}` a value that depends smoothly on the bond vector is replaced by a constant ({len(lst)} site(s): "
                      f"{', '.join(sorted({k for _, k in lst}))}; first `{short(first, 60)}`): the frame has the right value there but zero derivative, so forces are "
                      f"not covariant on that set while energies stay invariant", sites=len(lst))
@@ -239,7 +263,20 @@ def run(ctx):
             return "any"
 
         def arms(e, conds):
-            """(conditions, constant) for every arm of a (nested) conditional expression"""
+            """(conditions, constant) for every arm of a (nested) conditional expression, or every row of a module-level {dtype: tolerance} table that is looked up"""
+            tab = None
+            if isinstance(e, ast.Subscript) and isinstance(e.value, ast.Name):
+                tab = m.globals.get(e.value.id)
+            elif isinstance(e, ast.Call) and isinstance(e.func, ast.Attribute) and e.func.attr == "get" and isinstance(e.func.value, ast.Name):
+                tab = m.globals.get(e.func.value.id)
+            if isinstance(tab, ast.Dict):
+                out_ = []
+                for k_, v_ in zip(tab.keys, tab.values):
+                    try:
+                        out_.append((conds + [(norm(k_), True)], float(fold(v_))))
+                    except (NotConst, TypeError, ValueError):
+                        pass
+                return out_
             if isinstance(e, ast.IfExp):
                 t = norm(e.test)
                 return arms(e.body, conds + [(t, True)]) + arms(e.orelse, conds + [(t, False)])
@@ -252,6 +289,14 @@ def run(ctx):
                 ctrl = [(norm(a), bool(p_)) for a, p_, _ in controlling(m, st)]
                 for conds, val in arms(st.value, ctrl):
                     thr.append((dtype_of(conds), val, st))
+        # a threshold looked up in place (`abs(w) < TABLE[w.dtype]`)
+        for cond in mask_defs.values():
+            for c in ast.walk(cond):
+                if isinstance(c, ast.Compare):
+                    for x in [c.left] + list(c.comparators):
+                        if isinstance(x, (ast.Subscript, ast.Call)):
+                            for conds, val in arms(x, []):
+                                thr.append((dtype_of(conds), val, cond))
         for cond in mask_defs.values():
             for c in ast.walk(cond):
                 if isinstance(c, ast.Constant) and isinstance(c.value, float) and 0 < c.value < 1:
@@ -432,6 +477,53 @@ def _bad(e):
     raise AnalysisError(f"frame: operator {norm(e)}")
 
 
+def _frame_symbolic(ctx, rid, m):
+    """symbolic reading of the quaternion frame from its nine stores (consulted only when the routine cannot be interpreted)"""
+    import sympy as sp
+    # ---- the frame itself: orthogonal, first row = bond vector, on the generic chart and on the antipodal chart
+    q = m.func("rotate_with_quaternion")
+    vx, vy, vz = sp.symbols("vx vy vz", real=True)
+    env = {}
+    rot = {}
+    for st in q.body:
+        if isinstance(st, ast.Return):
+            break
+        if isinstance(st, ast.Assign) and isinstance(st.targets[0], ast.Subscript) and norm(st.targets[0].value) == "rot":
+            sl = st.targets[0].slice.elts
+            i, j = sl[-2].value, sl[-1].value
+            qy, qz, qw = sp.symbols("qy qz qw", real=True)
+            rot[(i, j)] = to_sympy(st.value, {"qy": qy, "qz": qz, "qw": qw}, {})
+    if len(rot) != 9:
+        raise AnalysisError(f"rotate_with_quaternion: {len(rot)} rotation elements interpreted")
+    qy, qz, qw = sp.symbols("qy qz qw", real=True)
+    Rm = sp.Matrix(3, 3, lambda i, j: rot[(i, j)])
+    # generic chart: q_raw = (0, vz, -vy, 1 + vx) / N
+    N2 = vz ** 2 + vy ** 2 + (1 + vx) ** 2
+    gen = {qy: vz / sp.sqrt(N2), qz: -vy / sp.sqrt(N2), qw: (1 + vx) / sp.sqrt(N2)}
+    Rg = Rm.subs(gen)
+    unit = {vz ** 2: 1 - vx ** 2 - vy ** 2}
+    orth = sp.simplify((Rg * Rg.T - sp.eye(3)).subs(unit))
+    row0 = [sp.simplify(sp.simplify(Rg[0, k]).subs(unit) - (vx, vy, vz)[k]) for k in range(3)]
+    # numeric fallback at a rational unit vector (Pythagorean quadruple 2,3,6,7)
+    pt = {vx: sp.Rational(2, 7), vy: sp.Rational(3, 7), vz: sp.Rational(6, 7)}
+    orth_ok = orth == sp.zeros(3, 3) or (Rg.subs(pt) * Rg.subs(pt).T - sp.eye(3)) == sp.zeros(3, 3)
+    row_ok = all(x == 0 for x in row0) or all(sp.simplify(Rg[0, k].subs(pt) - (vx, vy, vz)[k].subs(pt)) == 0 for k in range(3))
+    # the q_raw definition in the code must be the one assumed here
+    u1 = [st for st in q.body if isinstance(st, ast.Assign) and norm(st.targets[0]).replace(" ", "") == "u[:,1]"]
+    u2 = [st for st in q.body if isinstance(st, ast.Assign) and norm(st.targets[0]).replace(" ", "") == "u[:,2]"]
+    wdef = [st for st in q.body if isinstance(st, ast.Assign) and norm(st.targets[0]) == "w_"]
+    qdef_ok = bool(u1 and u2 and wdef) and norm(u1[0].value).replace(" ", "") == "v[:,2]" and norm(u2[0].value).replace(" ", "") == "-v[:,1]" \
+        and norm(wdef[0].value).replace(" ", "") == "1.0+v[...,0]"
+    ctx.check(qdef_ok and orth_ok and row_ok, rid, m, q, "rotate_with_quaternion", "generic chart", "generic chart: rot is orthogonal and its first row is the unit bond vector",
+              f"generic chart: rot rot^T - 1 = {orth}, first row - v = {row0}, q_raw definition recognised = {qdef_ok}")
+    pole = {qy: 0, qz: 1, qw: 0}
+    fallback = [st for st in q.body if isinstance(st, ast.Assign) and norm(st.targets[0]) == "q_raw[mask]"]
+    fb_ok = bool(fallback) and "[0.0, 0.0, 1.0, 0.0]" in norm(fallback[0].value)
+    Rp = Rm.subs(pole)
+    ctx.check(fb_ok and Rp * Rp.T == sp.eye(3) and list(Rp[0, :]) == [-1, 0, 0], rid, m, q, "rotate_with_quaternion", "antipodal chart",
+              "antipodal chart: rot = diag(-1, -1, 1) is orthogonal with first row -x (the bond vector there)", f"antipodal chart gives rot = {Rp}")
+
+
 def check_integral_rotation(ctx, rid):
     """(shared with C06) see sa/rotint.py"""
     import random
@@ -510,45 +602,29 @@ def check_integral_rotation(ctx, rid):
            f"{100 + 10 - len(bad_total)} of 110 packed molecular-frame integrals equal the tensor transform of the point-charge local tensor at 2 random exact rotations (40 digits)")
     for _ in range(109 - len(bad_total)):
         ctx.ok(rid, "seqm/seqm_functions/two_elec_two_center_int.py:w_withquaternion", "packed element equals the tensor transform", nontrivial=True)
-    # ---- the frame itself: orthogonal, first row = bond vector, on the generic chart and on the antipodal chart
+    # ---- the frame itself, by value: rotate_with_quaternion is interpreted (sa.npsym) on exact unit vectors; rot must be orthogonal with first row = the bond vector on the
+    # generic chart, and diag(-1, -1, 1) exactly at the antipode of x; the symbolic reading of the nine stores is the fallback
     q = m.func("rotate_with_quaternion")
-    vx, vy, vz = sp.symbols("vx vy vz", real=True)
-    env = {}
-    rot = {}
-    for st in q.body:
-        if isinstance(st, ast.Return):
-            break
-        if isinstance(st, ast.Assign) and isinstance(st.targets[0], ast.Subscript) and norm(st.targets[0].value) == "rot":
-            sl = st.targets[0].slice.elts
-            i, j = sl[-2].value, sl[-1].value
-            qy, qz, qw = sp.symbols("qy qz qw", real=True)
-            rot[(i, j)] = to_sympy(st.value, {"qy": qy, "qz": qz, "qw": qw}, {})
-    if len(rot) != 9:
-        raise AnalysisError(f"rotate_with_quaternion: {len(rot)} rotation elements interpreted")
-    qy, qz, qw = sp.symbols("qy qz qw", real=True)
-    Rm = sp.Matrix(3, 3, lambda i, j: rot[(i, j)])
-    # generic chart: q_raw = (0, vz, -vy, 1 + vx) / N
-    N2 = vz ** 2 + vy ** 2 + (1 + vx) ** 2
-    gen = {qy: vz / sp.sqrt(N2), qz: -vy / sp.sqrt(N2), qw: (1 + vx) / sp.sqrt(N2)}
-    Rg = Rm.subs(gen)
-    unit = {vz ** 2: 1 - vx ** 2 - vy ** 2}
-    orth = sp.simplify((Rg * Rg.T - sp.eye(3)).subs(unit))
-    row0 = [sp.simplify(sp.simplify(Rg[0, k]).subs(unit) - (vx, vy, vz)[k]) for k in range(3)]
-    # numeric fallback at a rational unit vector (Pythagorean quadruple 2,3,6,7)
-    pt = {vx: sp.Rational(2, 7), vy: sp.Rational(3, 7), vz: sp.Rational(6, 7)}
-    orth_ok = orth == sp.zeros(3, 3) or (Rg.subs(pt) * Rg.subs(pt).T - sp.eye(3)) == sp.zeros(3, 3)
-    row_ok = all(x == 0 for x in row0) or all(sp.simplify(Rg[0, k].subs(pt) - (vx, vy, vz)[k].subs(pt)) == 0 for k in range(3))
-    # the q_raw definition in the code must be the one assumed here
-    u1 = [st for st in q.body if isinstance(st, ast.Assign) and norm(st.targets[0]).replace(" ", "") == "u[:,1]"]
-    u2 = [st for st in q.body if isinstance(st, ast.Assign) and norm(st.targets[0]).replace(" ", "") == "u[:,2]"]
-    wdef = [st for st in q.body if isinstance(st, ast.Assign) and norm(st.targets[0]) == "w_"]
-    qdef_ok = bool(u1 and u2 and wdef) and norm(u1[0].value).replace(" ", "") == "v[:,2]" and norm(u2[0].value).replace(" ", "") == "-v[:,1]" \
-        and norm(wdef[0].value).replace(" ", "") == "1.0+v[...,0]"
-    ctx.check(qdef_ok and orth_ok and row_ok, rid, m, q, "rotate_with_quaternion", "generic chart", "generic chart: rot is orthogonal and its first row is the unit bond vector",
-              f"generic chart: rot rot^T - 1 = {orth}, first row - v = {row0}, q_raw definition recognised = {qdef_ok}")
-    pole = {qy: 0, qz: 1, qw: 0}
-    fallback = [st for st in q.body if isinstance(st, ast.Assign) and norm(st.targets[0]) == "q_raw[mask]"]
-    fb_ok = bool(fallback) and "[0.0, 0.0, 1.0, 0.0]" in norm(fallback[0].value)
-    Rp = Rm.subs(pole)
-    ctx.check(fb_ok and Rp * Rp.T == sp.eye(3) and list(Rp[0, :]) == [-1, 0, 0], rid, m, q, "rotate_with_quaternion", "antipodal chart",
-              "antipodal chart: rot = diag(-1, -1, 1) is orthogonal with first row -x (the bond vector there)", f"antipodal chart gives rot = {Rp}")
+    import numpy as _np
+    from ..npsym import NpSym as _NpSym, Raised as _Raised
+    try:
+        R_ = sp.Rational
+        vecs_ = [(R_(2, 7), R_(3, 7), R_(6, 7)), (R_(-2, 3), R_(1, 3), R_(2, 3)), (R_(3, 5), 0, R_(-4, 5)), (0, 1, 0), (1, 0, 0), (-1, 0, 0)]
+        V_ = _np.array([[sp.sympify(c_) for c_ in v_] for v_ in vecs_], dtype=object)
+        res_ = _NpSym(ctx.repo).call_function(m, q, [V_])
+        rot_ = _np.asarray(res_[0] if isinstance(res_, tuple) else res_)
+        okg, oka, msgf = True, True, ""
+        for k_, v_ in enumerate(vecs_):
+            Rk = sp.Matrix(3, 3, lambda i_, j_: sp.simplify(rot_[k_, i_, j_]))
+            if k_ < len(vecs_) - 1:
+                if sp.simplify(Rk * Rk.T - sp.eye(3)) != sp.zeros(3, 3) or any(sp.simplify(Rk[0, c_] - sp.sympify(v_[c_])) != 0 for c_ in range(3)):
+                    okg, msgf = False, f"for the unit bond vector {tuple(str(x) for x in v_)} rot rot^T - 1 = {sp.simplify(Rk * Rk.T - sp.eye(3))}, first row = {list(Rk[0, :])}"
+            elif Rk != sp.diag(-1, -1, 1):
+                oka, msgf = False, f"at the antipode (-1, 0, 0) rot = {Rk}"
+        ctx.check(okg, rid, m, q, "rotate_with_quaternion", "generic chart", "generic chart: rot is orthogonal and its first row is the unit bond vector (interpreted at 5 exact unit vectors)",
+                  f"generic chart: {msgf}")
+        ctx.check(oka, rid, m, q, "rotate_with_quaternion", "antipodal chart", "antipodal chart: rot = diag(-1, -1, 1) is orthogonal with first row -x (the bond vector there)",
+                  f"antipodal chart: {msgf}")
+    except (AnalysisError, _Raised) as e_:
+        ctx.note(f"rotate_with_quaternion could not be interpreted ({str(e_)[:100]}); symbolic reading of the stores used") if hasattr(ctx, "note") else None
+        _frame_symbolic(ctx, rid, m)
